@@ -45,3 +45,22 @@ Example C08_distinct_example :
 Proof. split; vm_compute; reflexivity. Qed.
 Example C08_probe_example : cs_chunk_line_cost (repeat 32%N 10 ++ repeat 48%N 5 ++ [10]%N) = 55.
 Proof. vm_compute. reflexivity. Qed.
+
+(* ---- the outer loops of the two data entry points: the number of state-function passes of ONE data call is LINEAR in the length of the chunk.
+        connp_*_data_opt is the entry point with the pass budget made explicit (None when the budget is exhausted); the budgets are
+        16 * len + 16 passes (request direction) and 8 * len + 64 passes (response direction), and they are never exhausted. What one pass costs
+        is what the per-construct theorems above are about. ---- *)
+Require Import Htp.Model.MConnTypes Htp.Model.MReq Htp.Model.MRes Htp.Proof.PReq Htp.Proof.PTermReq Htp.Proof.PTermRes.
+Theorem C08_request_pass_budget : forall len, rq_fuel len = 16 * len + 16.
+Proof. reflexivity. Qed.
+Theorem C08_request_passes_linear : forall cb g data len c,
+  rq_inv c -> (forall d, data = Some d -> len <= length d) -> (c_in_status c = c_HTP_STREAM_CLOSED -> len = 0) ->
+  connp_req_data_opt cb g data len c = Some (connp_req_data cb g data len c).
+Proof. exact req_data_never_out_of_fuel. Qed.
+Print Assumptions C08_request_passes_linear.
+Theorem C08_response_pass_budget : forall len, rs_res_fuel len = 8 * len + 64.
+Proof. reflexivity. Qed.
+Theorem C08_response_passes_linear : forall cb g data len c,
+  ts_entry_ok len c -> connp_res_data_opt cb g data len c = Some (connp_res_data cb g data len c).
+Proof. exact res_data_never_out_of_fuel. Qed.
+Print Assumptions C08_response_passes_linear.
